@@ -125,3 +125,10 @@ check(
     "Native layouts are built in memory from the format descriptions (no netCDF4 backend is installed, so the file-opening halves of ncswan / wwm / ndbc readers cannot be exercised here); ERA5 frequencies / directions are passed through the documented arguments.",
     "DESIGN.md section 5 C12",
 )
+check(
+    "C11",
+    "round trip: Hypothesis-generated datasets written with each format writer and read back with the matching reader, compared by (lon, lat) position, time, frequency, direction label and bin against the format's own quantisation step; written-record completeness for chunked Octopus output",
+    "Hundreds (quick) / thousands (thorough) of datasets per pair (file I/O bound): SWAN ASCII (stations and lat x lon grids of unequal sizes, gz, ntime chunking, as_site), JSON, wavespectra netCDF packed / unpacked, WW3 netCDF, Octopus, Funwave; zero, all-NaN and 12-decade spectra, unsorted directions. Exploration.",
+    "netCDF pairs run through the scipy NETCDF3 backend only (netCDF4 / zarr not installed: NETCDF4, zlib and zarr round trips are not claimed); coordinates are generated on each format's print resolution so that only the documented energy quantisation is lost.",
+    "DESIGN.md section 5 C11",
+)
